@@ -3,7 +3,6 @@
 package main
 
 import (
-	"sync/atomic"
 	"bufio"
 	"context"
 	"encoding/json"
@@ -16,6 +15,7 @@ import (
 	"strconv"
 	"strings"
 	"sync"
+	"sync/atomic"
 	"syscall"
 	"time"
 
@@ -68,6 +68,23 @@ func recvChild(args []string) int {
 		return 3
 	}
 	opts := transfer.Options{Resume: os.Getenv("VERIF_RECV_NORESUME") == "", NoRootDir: true, HashAlg: "crc32c", ParallelFiles: streams}
+	if ms, _ := strconv.Atoi(os.Getenv("VERIF_RECV_LATE_REPORT_MS")); ms > 0 {
+		// the receiver's first control-stream write (the resume report) is held
+		// past the sender's grace period: the sender starts without a plan; and
+		// what arrives on the data streams is read with a lag, as over a link
+		// whose data streams are behind its control stream
+		lag, _ := strconv.Atoi(os.Getenv("VERIF_RECV_DATA_LAG_MS"))
+		var once sync.Once
+		d := &vk.Deco{Inner: conn, OnIO: func(ord int, dir string, n int) {
+			if ord == 0 && dir == "w" {
+				once.Do(func() { time.Sleep(time.Duration(ms) * time.Millisecond) })
+			}
+			if ord >= 1 && dir == "r" && lag > 0 {
+				time.Sleep(time.Duration(lag) * time.Millisecond)
+			}
+		}}
+		conn = d.Wrap()
+	}
 	_, err = transfer.RecvManifestMultiStream(ctx, conn, outDir, opts)
 	_ = conn.Close()
 	if err != nil {
@@ -102,6 +119,10 @@ func killWorkloads(e *Env) []*killWorkload {
 	g := mk("kgap", 64, 3, vk.Entry{Rel: "g0.bin", Size: 64*24 + 17}, vk.Entry{Rel: "g1.bin", Size: 64*24 + 60})
 	g.GapOnly = true
 	w = append(w, g)
+	// one data stream: whatever trails a file on it is in front of the next file
+	ser := mk("kserial", 64, 1, vk.Entry{Rel: "a.bin", Size: 64*3 + 5}, vk.Entry{Rel: "b.bin", Size: 64*7 + 2})
+	ser.GapOnly = true
+	w = append(w, ser)
 	if e.Thorough() {
 		w = append(w,
 			mk("k1big", 4096, 1, vk.Entry{Rel: "big.bin", Size: 4096*30 + 100}),
@@ -137,9 +158,14 @@ type killStep struct {
 }
 
 type killCase struct {
-	ID    string     `json:"id"`
-	W     string     `json:"workload"`
-	Steps []killStep `json:"steps"` // chain of interrupted runs, then a final clean resume
+	// FinalLate: in the final resume the receiver's resume report comes after
+	// the sender's grace period (the sender starts without a plan and re-sends
+	// what the receiver has) and the sender's data streams lag behind its
+	// control stream
+	FinalLate bool       `json:"final_late_report,omitempty"`
+	ID        string     `json:"id"`
+	W         string     `json:"workload"`
+	Steps     []killStep `json:"steps"` // chain of interrupted runs, then a final clean resume
 	// FinalCS: chunk size of the final clean resume (0 = the workload's)
 	FinalCS uint32 `json:"final_cs,omitempty"`
 }
@@ -151,7 +177,7 @@ type senderRun struct {
 	CtrlRecv []byte // receiver->sender control bytes
 }
 
-func runSenderAgainst(ctx context.Context, port int, w *killWorkload, src string, childDead <-chan struct{}, abortAt, stallAt int64, noResume bool) senderRun {
+func runSenderAgainst(ctx context.Context, port int, w *killWorkload, src string, childDead <-chan struct{}, abortAt, stallAt int64, noResume bool, slowDataMs int64) senderRun {
 	var out senderRun
 	udp, err := net.ListenUDP("udp4", &net.UDPAddr{IP: net.IPv4(127, 0, 0, 1)})
 	if err != nil {
@@ -194,6 +220,14 @@ func runSenderAgainst(ctx context.Context, port int, w *killWorkload, src string
 			}
 		}
 	}
+	if slowDataMs > 0 {
+		// the data streams lag behind the control stream
+		deco.OnIO = func(ord int, dir string, n int) {
+			if ord >= 1 && dir == "w" && n > 0 {
+				time.Sleep(time.Duration(slowDataMs) * time.Millisecond)
+			}
+		}
+	}
 	sctx, scancel := context.WithCancel(ctx)
 	defer scancel()
 	go func() {
@@ -207,7 +241,25 @@ func runSenderAgainst(ctx context.Context, port int, w *killWorkload, src string
 	cs, streams := w.CS, w.Streams
 	opts := transfer.Options{ChunkSize: cs, ParallelFiles: streams, Resume: !noResume, HashAlg: "crc32c", ResolveFilePath: res,
 		ParamSource: func() transfer.RuntimeParams { return transfer.RuntimeParams{ChunkSize: cs, ParallelFiles: streams} }}
-	out.Err = transfer.SendManifestMultiStream(sctx, deco.Wrap(), ".", m, opts)
+	sconn := deco.Wrap()
+	if slowDataMs < 0 {
+		// a long link: 300 ms one way on the control stream (the resume report
+		// of a file comes back after the sender's grace period), and data
+		// streams that deliver their first frame at once and then fall far behind
+		first := int64(20) + int64(cs)
+		sconn = &vk.LagConn{Conn: sconn,
+			Out: func(idx int, off int64) time.Duration {
+				switch {
+				case idx == 0:
+					return 300 * time.Millisecond
+				case off < first:
+					return 30 * time.Millisecond
+				}
+				return time.Duration(-slowDataMs) * time.Millisecond
+			},
+			In: func(int) time.Duration { return 400 * time.Millisecond }}
+	}
+	out.Err = transfer.SendManifestMultiStream(sctx, sconn, ".", m, opts)
 	_ = conn.Close()
 	out.CtrlRecv = deco.Recorded(0, "r")
 	return out
@@ -261,12 +313,20 @@ func runInterrupted(e *Env, w *killWorkload, src, outDir, hookSpec string, abort
 		stallAt = opt[0]
 	}
 	noResume := len(opt) > 1 && opt[1] != 0
+	lateMs, slowDataMs := int64(0), int64(0)
+	if len(opt) > 3 {
+		lateMs, slowDataMs = opt[2], opt[3]
+	}
 	var cr childResult
 	logPath := filepath.Join(filepath.Dir(outDir), fmt.Sprintf("hook-%d.log", time.Now().UnixNano()))
 	cmd := exec.Command(os.Args[0], "recv-child", outDir, strconv.Itoa(w.Streams))
 	cmd.Env = append(os.Environ(), "VERIFHOOK="+hookSpec, "VERIFHOOK_LOG="+logPath)
 	if noResume {
 		cmd.Env = append(cmd.Env, "VERIF_RECV_NORESUME=1")
+	}
+	if lateMs > 0 {
+		cmd.Env = append(cmd.Env, fmt.Sprintf("VERIF_RECV_LATE_REPORT_MS=%d", lateMs), fmt.Sprintf("VERIF_RECV_DATA_LAG_MS=%d", slowDataMs))
+		slowDataMs = 0 // the lag is on the receiving end
 	}
 	stdout, _ := cmd.StdoutPipe()
 	var stderr strings.Builder
@@ -293,7 +353,7 @@ func runInterrupted(e *Env, w *killWorkload, src, outDir, hookSpec string, abort
 	select {
 	case port := <-portCh:
 		ctx, cancel := context.WithTimeout(context.Background(), 40*time.Second)
-		sr = runSenderAgainst(ctx, port, w, src, dead, abortAt, stallAt, noResume)
+		sr = runSenderAgainst(ctx, port, w, src, dead, abortAt, stallAt, noResume, slowDataMs)
 		cancel()
 	case <-dead:
 		cr.PortErr = "child exited before printing its port: " + stderr.String()
@@ -478,6 +538,23 @@ func runKillEngine(e *Env, c04, c05 bool) {
 			}
 		}
 	}
+	if c04 {
+		// final resumes whose report comes late while the data streams lag: the
+		// sender re-sends what the receiver has, files complete under duplicates
+		for _, w := range wls {
+			ks := []int{5, 9, 14, 20}
+			if w.Name == "kserial" {
+				ks = []int{4, 5, 6, 8}
+			}
+			for _, k := range ks {
+				if k > w.Hits["recv.chunk.afterMark"] {
+					continue
+				}
+				cases = append(cases, killCase{ID: fmt.Sprintf("%s-%05d", prop, len(cases)), W: w.Name, FinalLate: true,
+					Steps: []killStep{{Site: "recv.chunk.afterMark", K: k, Action: "delaykill", Slow: 45}}})
+			}
+		}
+	}
 	if c05 && !c04 {
 		// the SOURCE changes between the runs: the biggest file of the tree (a
 		// regular file, or a symbolic link to one that lives outside the tree)
@@ -497,7 +574,7 @@ func runKillEngine(e *Env, c04, c05 bool) {
 		}
 	}
 	for _, w := range wls {
-		if !w.GapOnly {
+		if !w.GapOnly || w.Name == "kserial" {
 			continue
 		}
 		// host restarted with another chunk size between the runs: the first run
@@ -779,7 +856,30 @@ func runKillEngine(e *Env, c04, c05 bool) {
 		if c.FinalCS > 0 {
 			wf.CS = c.FinalCS
 		}
-		cr, sr := runInterrupted(e, &wf, src, outDir, "x=log", 0)
+		var cr childResult
+		var sr senderRun
+		if c.FinalLate {
+			cr, sr = runInterrupted(e, &wf, src, outDir, "x=log", 0, 0, 0, 0, -1500)
+			e.R.Count("final_resumes_with_late_report_and_lagging_data_streams")
+			writes := map[uint64]int{}
+			dups := 0
+			for _, h := range cr.HookLog {
+				if h.Name == "recv.chunk.afterWrite" {
+					writes[h.A<<20|h.B]++
+					if writes[h.A<<20|h.B] > 1 {
+						dups++
+					}
+				}
+			}
+			// chunks written although the receiver had them: what a sender without a plan re-sends
+			var total int64
+			for _, en := range wf.Tree.Entries {
+				total += (en.Size + int64(wf.CS) - 1) / int64(wf.CS)
+			}
+			e.R.SetExtra("late_final:"+c.ID, map[string]any{"chunk_writes": len(cr.HookLog), "distinct_chunks_written": len(writes), "chunks_in_tree": total, "exit": cr.ExitCode})
+		} else {
+			cr, sr = runInterrupted(e, &wf, src, outDir, "x=log", 0)
+		}
 		if cr.PortErr != "" {
 			e.R.Inconcl(c.ID + ": final run: " + cr.PortErr)
 			return
@@ -900,6 +1000,13 @@ func lastLine(s string) string {
 }
 
 func chainKey(c killCase) string {
+	if c.FinalLate {
+		return "late-report+lagging-data:" + chainKeyPlain(c)
+	}
+	return chainKeyPlain(c)
+}
+
+func chainKeyPlain(c killCase) string {
 	var parts []string
 	for _, s := range c.Steps {
 		p := fmt.Sprintf("%s@%d:%s", s.Site, s.K, s.Action)
